@@ -213,9 +213,20 @@ Definition iwrites (it : item) : list N :=
   | IFf _ _ => []
   end.
 
+(* `q = q;` (possibly through $signed/$unsigned/+): ff-opt engines drop it, --disable-ff-opt keeps the
+   non-blocking meaning (finding ff-self-assignment) *)
+Fixpoint strip_wrappers (e : expr) : expr :=
+  match e with
+  | ESign _ a => strip_wrappers a
+  | EUn UPlus a => strip_wrappers a
+  | _ => e
+  end.
+Definition self_assign (x : N) (e : expr) : bool :=
+  match strip_wrappers e with EVar y => y =? x | _ => false end.
+
 Fixpoint ssupported (D : decls) (s : stmt) {struct s} : bool :=
   match s with
-  | SAssign _ e => supported D e
+  | SAssign x e => supported D e && negb (self_assign x e)
   | SAssignSel _ _ _ e => supported D e
   | SIf c t f =>
       supported D c &&
